@@ -1,8 +1,8 @@
 #!/bin/bash
-# tools/mutant_batch.sh "<ID:patchfile:checkid[:scenario]> ..." : run each seeded change against a check
+# tools/mutant_batch.sh "<name:patchfile:checkid[:scenario[:budget]]> ..." : run each seeded change against a check
 for item in "$@"; do
-  IFS=: read -r name patch cid scen <<<"$item"
+  IFS=: read -r name patch cid scen bud <<<"$item"
   extra=(); [ -n "$scen" ] && extra=(--scenario "$scen")
   echo "##### $name -> check $cid ${scen:+scenario $scen}"
-  /verif/tools/mutant.sh "$patch" "$cid" 30 "${extra[@]}" 2>&1 | grep -E "VIOLATION|KNOWN|HARNESS|runs \(|check exit|patch does not|violation class" | head -8
+  /verif/tools/mutant.sh "$patch" "$cid" "${bud:-30}" "${extra[@]}" 2>&1
 done
